@@ -202,5 +202,6 @@ def run(run: Run):          # noqa: F811  (stage 1 + stage 2)
     from props import C07_pagers
     C07_pagers.run(run)
     C07_pagers.wiring(run)
+    run.native_standin("props.C07_native", "pager_scenarios_wrapped", "generated pagers over a loopback channel with scripted page histories")
     run.not_decided.append("termination when the server never returns an empty token (liveness; not asked by the statement)")
     run.assume("the pager class named by Method.client_output(.ident) is the emitted <Method.name>Pager / AsyncPager (f-string in Method._client_output; proved under C08's contract of _client_output)")
